@@ -544,6 +544,25 @@ package rtsp
 //@ extern func (l *xlog.Logger) Error(msg string, fields ...xlog.Field) ()
 //@   modifies ghostInt(l, "problems")
 //@   ensures ghostInt(l, "problems") == old(ghostInt(l, "problems")) + 1
+// the three handlers the play loop reaches through receive: they deliver / answer, and leave everything the loop's
+// cleanup depends on alone - the closed flag, the connection, the stream, the logger, the URL (frame). This is what the
+// assume[after:receive] clause of playStream takes for granted.
+//@ extern func (s *media.Stream) WriteRtpPacket(pack *RTPPack) (err error)
+//@   requires s != nil
+//@   modifies ghostAll("misc")
+//@ extern func (h fmtrtsp.Header) Del(key string) ()
+//@   modifies misc(h)
+//@ func (c *PullClient) onPack(p *RTPPack) (err error)
+//@   requires c != nil && c.stream != nil
+//@   modifies ghostAll("misc")
+//@ func (c *PullClient) onRequest(r *Request) (err error)
+//@   requires c != nil && r != nil && r.Header != nil && c.conn != nil && !held(&c.lockW)
+//@   modifies ghostAll("misc"), held(&c.lockW), out(c.conn), ghostInt(c.conn, "flushed"), ghostInt(c.conn, "flushes")
+//@   ensures !held(&c.lockW)
+//@ func (c *PullClient) onResponse(resp *Response) (err error)
+//@   requires c != nil
+//@   modifies
+//@   ensures err == nil
 //@ func (c *PullClient) playStream() ()
 //@   recovers
 //@   requires c != nil && c.stream != nil && c.conn != nil && c.logger != nil && c.url != nil && !c.closed && !held(&c.lockW) && stats.RtspConns != nil
